@@ -222,6 +222,36 @@ def detectCompressionIn (order : List (Compression × Bytes)) (src : Bytes) : Co
 def magicTable : List (Compression × Bytes) := [(.bzip2, magicBzip2), (.gzip, magicGzip), (.xz, magicXz)]
 def detectCompression (src : Bytes) : Compression := detectCompressionIn magicTable src
 
+/-- the value of an octal digit string (`strconv.ParseInt(field, 8, 64)`); `none` for anything else -/
+def octalVal? (bs : Bytes) : Option Nat :=
+  match bs with
+  | [] => none
+  | _ => bs.foldl (fun (acc : Option Nat) (b : UInt8) => match acc with
+      | none => none
+      | some v => if 0x30 ≤ b.toNat ∧ b.toNat ≤ 0x37 then some (v * 8 + (b.toNat - 0x30)) else none) (some 0)
+
+def trimSpaceNul (bs : Bytes) : Bytes :=
+  let isPad (b : UInt8) : Bool := b == 0x20 || b == 0
+  ((bs.dropWhile isPad).reverse.dropWhile isPad).reverse
+
+def byteSum (bs : Bytes) : Nat := bs.foldl (fun (a : Nat) (x : UInt8) => a + x.toNat) 0
+
+/-- `isTarHeader` (since `fix:` 381ce6b): the first 512 bytes carry a valid tar header checksum — the checksum field
+    (offset 148, eight bytes) counted as spaces; the unsigned sum (the signed variant of historical tars is not modelled:
+    it differs only for blocks holding bytes ≥ 0x80) -/
+def isTarHeader (block : Bytes) : Bool :=
+  if block.length < 512 then false else
+  match octalVal? (trimSpaceNul ((block.drop 148).take 8)) with
+  | none => false
+  | some want =>
+    let b := block.take 512
+    want == byteSum (b.take 148) + 8 * 32 + byteSum (b.drop 156)
+
+/-- `Decompress`'s decision: the magic numbers are a hint; a first block that is a tar header is a tar header -/
+def decompressKind (block : Bytes) : Compression :=
+  let c := detectCompression (block.take 10)
+  if c ≠ .uncompressed ∧ isTarHeader block then .uncompressed else c
+
 /-- how the archive stream ended -/
 inductive StreamEnd | eof | corrupt
 deriving DecidableEq, Repr
